@@ -78,7 +78,7 @@ class AXI2AXILite(LiteXModule):
             # r (read data & response)
             axi.r.valid.eq(axi_lite.r.valid),
             axi.r.last.eq(_cmd_done),
-            axi.r.resp.eq(RESP_OKAY),
+            axi.r.resp.eq(axi_lite.r.resp),
             axi.r.id.eq(ax_beat.id),
             axi.r.data.eq(axi_lite.r.data),
             axi_lite.r.ready.eq(axi.r.ready),
